@@ -280,7 +280,7 @@ def run(tier, replay=None):
                 ok_rows = all(0 <= x < len(al) for row in rows for x, al in zip(row, alleles)) and all(len(row) == len(offs) for row in rows)
                 if ok_rows and all(len(set(al)) == len(al) for al in alleles):
                     strings = im.split(",")
-                    back = [[al.index(s[j]) for j, al in zip(offs, alleles)] for s in strings]
+                    back = [[al.find(s[j]) if j < len(s) else -9 for j, al in zip(offs, alleles)] for s in strings]
                     if back != rows:
                         chk.violation("encoding the formatted haplotypes with the same locus does not return the allele indices",
                                       {"request": req, "formatted": strings, "back": back}, "C12/roundtrip/encode-format")
